@@ -22,6 +22,15 @@ if ALT:
     COQ = os.path.join(CACHE, "alt", "coq")
     OCAML = os.path.join(CACHE, "alt", "ocaml")
 GUARD = "rbx_dom_verif"
+# Coverage mode (tools/coverage.py): the harness is built with -C instrument-coverage into its own target directory and
+# every harness process writes a raw profile; evidence goes to a scratch directory.  Diagnostic only (generator quality:
+# which lines of the modelled Rust functions the differential runs reach), never used by a registered check.
+COV = bool(os.environ.get("VERIF_COVERAGE")) and not ALT
+if COV:
+    EVIDENCE_DIR = os.path.join(CACHE, "evidence-cov")
+    WORK = os.path.join(CACHE, "work-cov")
+    os.makedirs(os.path.join(CACHE, "cov"), exist_ok=True)
+    os.environ["LLVM_PROFILE_FILE"] = os.path.join(CACHE, "cov", "%p-%16m.profraw")
 
 ALLOWED_AXIOMS = {
     # standard-library axioms a proof may rely on; each use is reported per theorem in the evidence
@@ -205,7 +214,7 @@ def print_assumptions(pid, names):
 # ---------------------------------------------------------------- harness / model builds
 
 def target_dir():
-    return os.path.join(CACHE, "target-alt" if ALT else "target")
+    return os.path.join(CACHE, "target-alt" if ALT else ("target-cov" if COV else "target"))
 
 
 def harness_bin(profile="debug"):
@@ -239,7 +248,7 @@ def build_harness(profile="debug", timeout=1500):
         if not os.path.exists(lock_dst):
             open(lock_dst, "w").write(open(lock_src).read())
         cmd = ["cargo", "build", "--offline"] + (["--release"] if profile == "release" else [])
-        env = {"RUSTFLAGS": "--cfg " + GUARD + " -Awarnings", "CARGO_TARGET_DIR": target_dir()}
+        env = {"RUSTFLAGS": "--cfg " + GUARD + " -Awarnings" + (" -C instrument-coverage" if COV else ""), "CARGO_TARGET_DIR": target_dir()}
         rc, out, dt = run(cmd, cwd=h, timeout=timeout, env=env)
         if rc != 0 and "Cargo.lock" in out:
             open(lock_dst, "w").write(open(lock_src).read())
